@@ -444,3 +444,175 @@ Proof.
   - destruct H as (x & a & H1 & H2 & H3). exfalso.
     apply (Hd1 a H2). apply (dout_att F n seeds x a H1 H3).
 Qed.
+
+(* ------------------------------------------------------------------ *)
+(** * Exactness for the unattacked seeds: the result is the grounded extension *)
+
+Lemma live_zero_conv : forall F D x, (forall b, att F b x -> In b D) -> live F D x = 0.
+Proof.
+  intros F D x H. unfold live, livel. apply length_zero_iff_nil.
+  destruct (filter _ (atts F)) as [|[u v] r] eqn:E; [reflexivity|]. exfalso.
+  assert (K : In (u, v) (filter (fun p => negb (memb (fst p) D) && Nat.eqb (snd p) x) (atts F))).
+  { rewrite E. left. reflexivity. }
+  apply filter_In in K. destruct K as [K1 K2]. cbn [fst snd] in K2.
+  apply andb_true_iff in K2. destruct K2 as [K2 K3]. apply Nat.eqb_eq in K3. subst v.
+  apply negb_true_iff in K2. apply memb_false in K2. apply K2. apply H. exact K1.
+Qed.
+
+Section Exact.
+Variable F : af.
+Variable n : nat.
+Hypothesis HF : compact_af F n.
+Variable seeds : list nat.
+
+Definition PX (s : pstate) : Prop :=
+  length (p_cnt s) = n /\
+  (forall d, In d (p_def s) -> exists p, In p (p_prop s) /\ att F p d) /\
+  (forall x, x < n -> ~ In x seeds -> nth_nat (p_cnt s) x = 0 ->
+             In x (p_prop s) \/ attackers F x = []).
+
+Lemma defend_step_x : forall s x0 s', p_defend seeds s x0 = Done s' -> x0 < n -> PX s ->
+  PX s' /\ (exists e, p_prop s' = p_prop s ++ e) /\ p_def s' = p_def s.
+Proof.
+  intros s x0 s' H Hx0 (Hlen & Hj & Hz). unfold p_defend in H.
+  destruct (memb x0 seeds).
+  { inversion H; subst s'. split; [split; [exact Hlen|split; assumption]|].
+    split; [exists []; rewrite app_nil_r; reflexivity | reflexivity]. }
+  destruct (nth_nat (p_cnt s) x0) as [|k] eqn:Ek; [discriminate|].
+  inversion H; subst s'; clear H. cbn [p_cnt p_prop p_def].
+  assert (Hsub : forall y, In y (p_prop s) -> In y (if Nat.eqb k 0 then p_prop s ++ [x0] else p_prop s)).
+  { intros y Hy. destruct (Nat.eqb k 0); [apply in_or_app; left; exact Hy | exact Hy]. }
+  split; [|split; [|reflexivity]].
+  - unfold PX. cbn [p_cnt p_prop p_def]. split; [rewrite length_set_nth; exact Hlen|]. split.
+    + intros d Hd. destruct (Hj d Hd) as (p & Hp & Hpd). exists p. split; [apply Hsub; exact Hp | exact Hpd].
+    + intros x Hx Hns Hc. destruct (Nat.eq_dec x0 x) as [E|E].
+      * subst x. rewrite nth_nat_set_eq in Hc by lia. subst k. left. cbn [Nat.eqb].
+        apply in_or_app. right. left. reflexivity.
+      * rewrite nth_nat_set_neq in Hc by exact E. destruct (Hz x Hx Hns Hc) as [K|K]; [left; apply Hsub; exact K | right; exact K].
+  - destruct (Nat.eqb k 0); [exists [x0]; reflexivity | exists []; rewrite app_nil_r; reflexivity].
+Qed.
+
+Lemma defend_all_x : forall l s s', ofold (p_defend seeds) l s = Done s' ->
+  (forall x, In x l -> x < n) -> PX s ->
+  PX s' /\ (exists e, p_prop s' = p_prop s ++ e) /\ p_def s' = p_def s.
+Proof.
+  induction l as [|x0 r IH]; intros s s' H Hlt HP; cbn [ofold] in H.
+  - inversion H; subst s'. split; [exact HP|]. split; [exists []; rewrite app_nil_r; reflexivity | reflexivity].
+  - destruct (p_defend seeds s x0) as [s1| |] eqn:E; try discriminate.
+    destruct (defend_step_x s x0 s1 E) as (HP1 & (e1 & He1) & Hd1); [apply Hlt; left; reflexivity | exact HP|].
+    destruct (IH s1 s' H) as (HP2 & (e2 & He2) & Hd2); [intros x Hx; apply Hlt; right; exact Hx | exact HP1|].
+    split; [exact HP2|]. split; [exists (e1 ++ e2); rewrite He2, He1, app_assoc; reflexivity | congruence].
+Qed.
+
+Lemma attack_all_x : forall l s id s', p_attack_all F seeds l s = Done (Some s') ->
+  In id (p_prop s) -> (forall a, In a l -> att F id a) -> PX s ->
+  PX s' /\ (exists e, p_prop s' = p_prop s ++ e) /\ incl (p_def s) (p_def s') /\
+  forall a, In a l -> In a (p_def s').
+Proof.
+  induction l as [|a r IH]; intros s id s' H Hid Hatt HP; cbn [p_attack_all] in H.
+  - inversion H; subst s'. split; [exact HP|]. split; [exists []; rewrite app_nil_r; reflexivity|].
+    split; [apply incl_refl | intros a []].
+  - assert (Ha : att F id a) by (apply Hatt; left; reflexivity).
+    assert (Hr : forall b, In b r -> att F id b) by (intros b Hb; apply Hatt; right; exact Hb).
+    destruct (memb a (p_prop s)); [discriminate|].
+    destruct (memb a (p_def s)) eqn:Ed.
+    { destruct (IH s id s' H Hid Hr HP) as (K1 & K2 & K3 & K4). split; [exact K1|]. split; [exact K2|].
+      split; [exact K3|]. intros b [Hb|Hb]; [subst b; apply K3; apply memb_In; exact Ed | apply K4; exact Hb]. }
+    set (s1 := {| p_cnt := p_cnt s; p_prop := p_prop s; p_def := p_def s ++ [a] |}) in H.
+    destruct (ofold (p_defend seeds) (attacked F a) s1) as [s2| |] eqn:E2; try discriminate.
+    assert (HP1 : PX s1).
+    { destruct HP as (Hlen & Hj & Hz). unfold PX, s1. cbn [p_cnt p_prop p_def].
+      split; [exact Hlen|]. split; [|exact Hz].
+      intros d Hd. apply in_app_or in Hd. destruct Hd as [Hd|[Hd|[]]]; [apply Hj; exact Hd|].
+      subst d. exists id. split; [exact Hid | exact Ha]. }
+    destruct (defend_all_x (attacked F a) s1 s2 E2) as (HP2 & (e2 & He2) & Hd2); [|exact HP1|].
+    { intros x Hx. apply in_attacked in Hx. apply (att_lt F n HF a x Hx). }
+    unfold s1 in He2, Hd2. cbn [p_prop p_def] in He2, Hd2.
+    destruct (IH s2 id s' H) as (K1 & (e3 & He3) & K3 & K4); [rewrite He2; apply in_or_app; left; exact Hid | exact Hr | exact HP2|].
+    split; [exact K1|]. split; [exists (e2 ++ e3); rewrite He3, He2, app_assoc; reflexivity|].
+    assert (Hinc : incl (p_def s ++ [a]) (p_def s')) by (rewrite <- Hd2; exact K3).
+    split.
+    + intros d Hd. apply Hinc. apply in_or_app. left. exact Hd.
+    + intros b [Hb|Hb]; [subst b; apply Hinc; apply in_or_app; right; left; reflexivity | apply K4; exact Hb].
+Qed.
+
+Definition Proc (idx : nat) (s : pstate) : Prop :=
+  forall i p, i < idx -> nth_error (p_prop s) i = Some p -> forall a, att F p a -> In a (p_def s).
+
+Lemma loop_x : forall fuel idx s P D, p_loop fuel F seeds idx s = Done (Some (P, D)) ->
+  PI F n seeds [] s -> PX s -> Proc idx s ->
+  exists s', P = p_prop s' /\ D = p_def s' /\ PI F n seeds [] s' /\ PX s' /\
+             forall p, In p P -> forall a, att F p a -> In a D.
+Proof.
+  induction fuel as [|f IH]; intros idx s P D H HPI HP Hproc; cbn [p_loop] in H; [discriminate|].
+  destruct (nth_error (p_prop s) idx) as [id|] eqn:En.
+  2:{ inversion H; subst P D. exists s. split; [reflexivity|]. split; [reflexivity|].
+      split; [exact HPI|]. split; [exact HP|].
+      intros p Hp a Ha. apply In_nth_error in Hp. destruct Hp as [i Hi].
+      apply (Hproc i p); [|exact Hi|exact Ha].
+      apply nth_error_None in En. assert (i < length (p_prop s)) by (apply nth_error_Some; congruence). lia. }
+  assert (Hidin : In id (p_prop s)) by (apply (nth_error_In _ _ En)).
+  assert (Hid : din F n seeds id).
+  { destruct HPI as (_ & _ & _ & _ & _ & Hdin & _). apply Hdin. exact Hidin. }
+  destruct (attack_all F n HF seeds (attacked F id) s id HPI Hid) as [(s1 & E & HPI1 & _)|[E _]].
+  { intros a Ha. apply in_attacked. exact Ha. }
+  2:{ rewrite E in H. discriminate. }
+  rewrite E in H.
+  destruct (attack_all_x (attacked F id) s id s1 E Hidin) as (HP1 & (e & He) & Hinc & Hall);
+    [intros a Ha; apply in_attacked; exact Ha | exact HP|].
+  apply (IH (S idx) s1 P D H HPI1 HP1).
+  intros i p Hi Hn a Ha.
+  assert (Hlt : idx < length (p_prop s)) by (apply nth_error_Some; congruence).
+  rewrite He in Hn. rewrite nth_error_app1 in Hn by lia.
+  destruct (Nat.eq_dec i idx) as [->|Hne].
+  - rewrite En in Hn. inversion Hn; subst p. apply Hall. apply in_attacked. exact Ha.
+  - apply Hinc. apply (Hproc i p); [lia | exact Hn | exact Ha].
+Qed.
+
+(* the seeds are exactly the unattacked arguments *)
+Hypothesis Hseeds : forall x, In x seeds <-> x < n /\ attackers F x = [].
+
+Lemma grounded_exact : forall P D,
+  propagate F (n_attacks_to F) seeds = Done (Some (P, D)) ->
+  co F P /\ forall d, In d D <-> exists p, In p P /\ att F p d.
+Proof.
+  intros P D H. unfold propagate in H.
+  destruct (n_attacks_to_spec F n HF) as [Hlen Hnth].
+  destruct (loop_x _ 0 _ P D H) as (s' & -> & -> & HPI & HP & Hall).
+  { apply init_PI. exact HF. }
+  { unfold PX. cbn [p_cnt p_prop p_def]. split; [exact Hlen|]. split; [intros d []|].
+    intros x _ _ Hc. right. rewrite Hnth in Hc. apply length_zero_iff_nil. exact Hc. }
+  { intros i p Hi. lia. }
+  destruct HPI as (_ & Hcnt & (pushed & Hprop & _ & Hpushed) & _ & _ & Hdin & Hdout).
+  destruct HP as (_ & Hj & Hz).
+  assert (Hun : forall x b, In x seeds -> ~ att F b x).
+  { intros x b Hx Hb. apply Hseeds in Hx. destruct Hx as [_ Hx]. apply in_attackers in Hb.
+    rewrite Hx in Hb. destruct Hb. }
+  destruct (derivations_disjoint F n seeds Hun) as [Hdis _].
+  assert (Hlt : forall x, In x (p_prop s') -> x < n).
+  { intros x Hx. rewrite Hprop in Hx. apply in_app_or in Hx. destruct Hx as [Hx|Hx].
+    - apply Hseeds in Hx. apply Hx.
+    - apply (Hpushed x Hx). }
+  assert (Hattackers : forall x, In x (p_prop s') -> forall b, att F b x -> In b (p_def s')).
+  { intros x Hx b Hb. rewrite Hprop in Hx. apply in_app_or in Hx. destruct Hx as [Hx|Hx].
+    - exfalso. exact (Hun x b Hx Hb).
+    - destruct (Hpushed x Hx) as (K1 & K2 & K3). apply (live_zero F (p_def s') x b); [|exact Hb].
+      pose proof (Hcnt x K2 K1) as K. rewrite occ_nil in K. lia. }
+  split.
+  - split; [split; [|split]|].
+    + intros x Hx. apply (args_lt F n HF). apply Hlt. exact Hx.
+    + intros a b Ha Hb Hab. apply (Hdis b (Hdin b Hb)). apply Hdout. apply (Hall a Ha b Hab).
+    + intros a Ha b Hb. destruct (Hj b (Hattackers a Ha b Hb)) as (p & Hp & Hpb). exists p. auto.
+    + intros x Hx Hdef. apply (args_lt F n HF) in Hx.
+      destruct (in_dec Nat.eq_dec x seeds) as [Hs|Hs]; [rewrite Hprop; apply in_or_app; left; exact Hs|].
+      assert (Hlive : live F (p_def s') x = 0).
+      { apply live_zero_conv. intros b Hb. destruct (Hdef b Hb) as (c & Hc & Hcb). apply (Hall c Hc b Hcb). }
+      pose proof (Hcnt x Hx Hs) as K. rewrite occ_nil, Hlive in K.
+      destruct (Hz x Hx Hs K) as [K'|K']; [exact K'|].
+      exfalso. apply Hs. apply Hseeds. split; assumption.
+  - intros d. split.
+    + intros Hd. apply Hj. exact Hd.
+    + intros (p & Hp & Hpd). apply (Hall p Hp d Hpd).
+Qed.
+
+End Exact.
